@@ -515,6 +515,9 @@ func runF2(p *an.Prog, r *an.Result) {
 				if strings.HasPrefix(cn, "strings.Index") || strings.HasPrefix(cn, "strings.LastIndex") || strings.HasPrefix(cn, "unicode/utf8.") {
 					continue
 				}
+				if _, _, isIdx := indexHelper(p, x); isIdx {
+					continue // a helper that returns a range index over the string (or -1)
+				}
 				ok = false
 			default:
 				ok = false
